@@ -12,15 +12,39 @@ import time
 
 VERIF = os.path.dirname(os.path.dirname(os.path.abspath(__file__)))
 REPO = os.environ.get("VERIF_REPO", "/repo")
-BUILD = os.path.join(VERIF, ".build")
+# Self-test mode: VERIF_REPO=<scratch copy> checks a mutated copy of the repository. Everything that
+# depends on the repository (binaries, regenerated Lean facts, Lean build, run dirs, evidence, replays)
+# then lives in a private area so that concurrent normal runs on /repo are not disturbed.
+MUT = os.path.realpath(REPO) != "/repo"
+BUILD0 = os.path.join(VERIF, ".build")
+if MUT:
+    BUILD = os.path.join(BUILD0, "mut", hashlib.md5(os.path.realpath(REPO).encode()).hexdigest()[:10])
+    LEAN = os.path.join(BUILD, "lean")
+    OUT = BUILD  # evidence/ and replays/ of a self-test run
+else:
+    BUILD = BUILD0
+    LEAN = os.path.join(VERIF, "lean")
+    OUT = VERIF
 BIN = os.path.join(BUILD, "bin")
-LEAN = os.path.join(VERIF, "lean")
-DRIVER = os.path.join(LEAN, ".lake", "build", "bin", "driver")
+
+
+def driver_path(exe):
+    return os.path.join(LEAN, ".lake", "build", "bin", exe)
+
 ALLOWED_AXIOMS = {"propext", "Classical.choice", "Quot.sound"}
 NCPU = os.cpu_count() or 4
 
 GOENV = dict(os.environ, GOFLAGS="-mod=mod", GOPROXY="off", GOSUMDB="off", GOTOOLCHAIN="local",
-             GOCACHE=os.path.join(BUILD, "gocache"))
+             GOCACHE=os.path.join(BUILD0, "gocache"))
+
+
+def prepare():
+    """self-test mode: snapshot the Lean project (with its build products) into the private area"""
+    os.makedirs(BUILD, exist_ok=True)
+    if MUT:
+        with Lock("lake", base=BUILD0):
+            subprocess.run(["rsync", "-a", "--delete", os.path.join(VERIF, "lean") + "/", LEAN + "/"], check=True)
+
 
 
 def log(*a):
@@ -40,9 +64,10 @@ def sh(cmd, cwd=None, env=None, timeout=None, stdin=None, stdout=subprocess.PIPE
 class Lock:
     """flock-based mutual exclusion between concurrently running checks"""
 
-    def __init__(self, name):
-        os.makedirs(BUILD, exist_ok=True)
-        self.path = os.path.join(BUILD, name + ".lock")
+    def __init__(self, name, base=None):
+        base = base or BUILD
+        os.makedirs(base, exist_ok=True)
+        self.path = os.path.join(base, name + ".lock")
 
     def __enter__(self):
         self.f = open(self.path, "w")
@@ -59,7 +84,7 @@ class Lock:
 def harness_modfile():
     """go.mod for the harness module with the replace directive pointing at REPO"""
     src = os.path.join(VERIF, "harness", "go.mod")
-    if REPO == "/repo":
+    if not MUT:
         return src
     alt = os.path.join(BUILD, "go.alt.mod")
     txt = open(src).read().replace("=> /repo", "=> " + REPO)
@@ -207,10 +232,10 @@ def forbidden_tokens():
     return hits
 
 
-def lean_obligations(prop_id, thorough=False):
-    """L1: build Props module (+driver), audit axioms. Returns dict for the evidence."""
+def lean_obligations(prop_id, thorough=False, exe=None):
+    """L1: build Props module (+driver exe), audit axioms. Returns dict for the evidence."""
     t0 = time.time()
-    ok, out = lake_build(["Got.Props." + prop_id, "driver"])
+    ok, out = lake_build(["Got.Props." + prop_id] + ([exe] if exe else []))
     res = {"build_ok": ok, "theorems": [], "obligations": 0, "discharged": 0, "build_log_tail": ""}
     names = props_theorems(prop_id)
     res["obligations"] = len(names)
@@ -236,9 +261,9 @@ def lean_obligations(prop_id, thorough=False):
     return res
 
 
-def run_driver(args, script_path, out_path, timeout=3600):
+def run_driver(exe, args, script_path, out_path, timeout=3600):
     with open(script_path) as fin, open(out_path, "w") as fout:
-        p = sh([DRIVER] + args, stdin=fin, stdout=fout, timeout=timeout)
+        p = sh([driver_path(exe)] + args, stdin=fin, stdout=fout, timeout=timeout)
     return p.returncode, p.stderr
 
 
@@ -258,7 +283,7 @@ def known_findings(prop_id):
 
 
 def write_replay(prop_id, name, payload):
-    d = os.path.join(VERIF, "replays")
+    d = os.path.join(OUT, "replays")
     os.makedirs(d, exist_ok=True)
     path = os.path.join(d, "%s-%s.json" % (prop_id, name))
     with open(path, "w") as fh:
@@ -268,7 +293,7 @@ def write_replay(prop_id, name, payload):
 
 
 def write_evidence(prop_id, tier, seed, coverage, wall_s, violations, assumptions):
-    d = os.path.join(VERIF, "evidence")
+    d = os.path.join(OUT, "evidence")
     os.makedirs(d, exist_ok=True)
     ev = {"property_id": prop_id, "tier": tier, "seed": seed, "level": "proof", "coverage": coverage,
           "assumptions": assumptions, "wall_s": round(wall_s, 2), "violations": violations}
